@@ -61,8 +61,11 @@ class Normalizer(metaclass=_NormalizerMeta):
     def visit_leaf(self, leaf):
         self._check_type_rules(leaf)
 
-        for rule in self._rule_value_instances.get(leaf.value, []):
-            rule.feed_node(leaf)
+        # Value rules match syntax (keywords and operators), not text that just
+        # happens to be spelled the same, like the string part of an f-string.
+        if leaf.type in ('keyword', 'operator'):
+            for rule in self._rule_value_instances.get(leaf.value, []):
+                rule.feed_node(leaf)
 
         return leaf.prefix + leaf.value
 
